@@ -76,7 +76,7 @@ def run(env, rep):
     scripts += table
     scripts += [G.random_script(env.rng, i) for i in range(env.scale(1200, 30000))]
     results = run_scripts(env, scripts)
-    lines, cases, impl = [], [], []
+    lines, cases, impl, fails = [], [], [], []
     for res in results:
         script = res["script"]
         tag = script.get("tag", "")
@@ -96,7 +96,11 @@ def run(env, rep):
             if key in seen:
                 continue
             seen.add(key)
-            rep.oracle_fail(case, verdict, key=key)
+            fails.append((case, key, verdict))
+        want = script.get("finding_key")
+        if want:
+            # a corpus replay of a recorded known finding: say whether the oracle still sees it
+            rep.count(("known-finding-reproduced:" if want in seen else "known-finding-NOT-reproduced:") + want)
         if script.get("slow_add"):
             rep.count("oracle-only:add_observation-suspends")
             continue
@@ -106,6 +110,20 @@ def run(env, rep):
         lines.append("C08 " + " ".join(res["args"]))
         cases.append(case)
         impl.append(res["impl_line"])
+    # Report keeps the first 50 failures only: one failure of every distinct key that is not a recorded known
+    # finding goes first, then a few of every known finding (not one per script that runs into it), then the rest
+    known = _known_keys()
+    heads, kn, rest, per_key = [], [], [], {}
+    for f in fails:
+        per_key[f[1]] = per_key.get(f[1], 0) + 1
+        if f[1] in known:
+            rep.count("known-finding-seen:" + f[1])
+            if per_key[f[1]] <= 3:
+                kn.append(f)
+        else:
+            (heads if per_key[f[1]] == 1 else rest).append(f)
+    for case, key, verdict in heads + kn + rest:
+        rep.oracle_fail(case, verdict, key=key)
     outs = env.lean(lines)
     for case, line, m, i in zip(cases, lines, outs, impl):
         if m == "bad-op":
